@@ -17,7 +17,56 @@ BOUNDS = scenarios.BOUNDS
 
 
 def plan(tier, seed):
-    return scenarios.tasks(tier) + [("ADV", i) for i in range(len(grammar_stmts.ADVERSARIAL))]
+    from mc import corpus, layout
+
+    lay = []
+    for pid in sorted(corpus.corpus()):
+        for sh in range(4):
+            lay.append(("LAY", "E/" + pid, sh, 4, tier))
+    for name, prog, only in layout.focus_programs():
+        lay.append(("LAY", "F/" + name, 0, 1, tier))
+    return scenarios.tasks(tier) + [("ADV", i) for i in range(len(grammar_stmts.ADVERSARIAL))] + lay
+
+
+def run_layouts(task):
+    """'... and every layout of P': the token comparison on laid-out sources
+    (layout model R; corpus with <= 1 deviation, focus programs with <= 2)"""
+    from mc import corpus, layout
+    from mc.runner import Result
+
+    _, pid, shard, nshards, tier = task
+    res = Result()
+    if pid.startswith("F/"):
+        name, prog, only = [f for f in layout.focus_programs() if "F/" + f[0] == pid][0]
+        opts, k = {"only": only, "styles": layout.STYLES_FOCUS, "case": False, "indents": False}, (2 if tier == "quick" else 3)
+    else:
+        prog = corpus.corpus()[pid[2:]]
+        opts, k = {"styles": layout.STYLES_QUICK}, 1
+    std = G.prog_std(prog)
+    n = 0
+    stats = {}
+    for vec, ch, lay in explore.explore(lambda ch: layout.render_free(prog, ch, opts), k, stats):
+        n += 1
+        if n % nshards != shard:
+            continue
+        stmts = [normalise(stmt_tokens(str(ex.label) if ex.label is not None else None, ex.name, ex.tokens)) for ex in lay.expect]
+        res.evals += 1
+        hk = h64(lay.text, std)
+        res.states.add(hk)
+        if vec:
+            res.nontrivial.add(hk)
+        kind, detail, o = judge(stmts, lay.text, std)
+        res.outcomes[kind or "ok"] += 1
+        if o.ok:
+            res.results.add(h64(text_of(o.tree)))
+        if kind:
+            feats = ",".join(sorted(f for f in lay.features if not f.startswith("case"))) or "canonical"
+            res.violation("C02|%s|layout:%s" % (kind, feats), "%s vec=%s std=%s\n%s\n--- source:\n%s" % (pid, list(vec), std, detail, lay.text), {"src": lay.text, "std": std, "cid": "layout:%s/" % feats, "stmts": [[list(t) for t in s] for s in stmts]}, cost=len(vec) * 100000 + len(lay.text))
+        if res.evals % 500 == 1:
+            res.sample({"program": pid, "layout": lay.text})
+    if shard == 0:
+        res.transitions += stats.get("decisions", 0)
+    return res
 
 
 def source_statements(prog):
@@ -82,6 +131,8 @@ def check_case(res, cid, prog, tag):
 
 
 def run(task):
+    if task[0] == "LAY":
+        return run_layouts(task)
     if task[0] == "ADV":
         from mc.runner import Result
 
@@ -97,5 +148,6 @@ def replay(case):
     stmts = [[tuple(t) for t in s] for s in case["stmts"]]
     kind, detail, o = judge(stmts, case["src"], case["std"])
     if kind:
-        return [{"sig": "C02|%s|%s" % (kind, scenarios.feature_tag(case["cid"])), "detail": detail}]
+        tag = case["cid"][:-1] if case["cid"].startswith("layout:") else scenarios.feature_tag(case["cid"])
+        return [{"sig": "C02|%s|%s" % (kind, tag), "detail": detail}]
     return []
